@@ -1246,17 +1246,33 @@ pub fn extract_event(sink: &Sink, r: &mut Rng, thorough: bool) {
     let tail = *r.pick(&[0usize, 1, 3, 32, 35]);
     let desc = json!({"op":"extract","K":k,"s":s,"exts":{"l":exts_l(exts),"r":exts_r(exts)},"off":off,"tail":tail});
     let case = sink.begin_case(&desc);
-    let res = guard(|| with_kmer!(k, extract_all(&s, exts, &positions, off, tail)));
+    // Exts::from_slice_bounds / from_dna_string: the flanks of a window of the sequence (none at a sequence end)
+    let mut windows: Vec<(usize, usize)> = vec![(0, n), (0, n / 2), (n / 2, n - n / 2)];
+    for _ in 0..4 {
+        let a = r.range(0, n);
+        windows.push((a, r.range(0, n - a)));
+    }
+    let res = guard(|| {
+        let mut v = with_kmer!(k, extract_all(&s, exts, &positions, off, tail));
+        let ds = DnaString::from_bytes(&s);
+        let fl: Vec<Value> = windows.iter().map(|(a, len)| {
+            let e1 = Exts::from_slice_bounds(&s, *a, *len);
+            let e2 = Exts::from_dna_string(&ds, *a, *len);
+            json!({"start": a, "len": len, "l": exts_l(e1), "r": exts_r(e1), "l2": exts_l(e2), "r2": exts_r(e2)})}).collect();
+        (v, fl)
+    });
     sink.end_case();
     let mut e = desc;
     e["case"] = json!(case);
     match res {
-        Ok(v) => {
+        Ok((v, fl)) => {
             e["res"] = json!(v);
+            e["flanks"] = json!(fl);
             e["panic"] = json!("");
         }
         Err(m) => {
             e["res"] = json!([]);
+            e["flanks"] = json!([]);
             e["panic"] = json!(m);
         }
     }
